@@ -25,7 +25,8 @@ META = {
     "technique": "Coq proof over observed IR templates (O-tie) + allocator models with exact-output differential + EVM canary contracts",
 }
 
-COQ_FILES = ["C04/GenChecks.v", "C04/AllocModel.v", "C04/AllocProofs.v", "C04/Checks.v", "C04/PropsC04.v"]
+COQ_FILES = ["C04/GenChecks.v", "C04/GenLegacy.v", "C04/AllocModel.v", "C04/AllocProofs.v", "C04/LegacyProofs.v", "C04/LegacyTie.v",
+             "C04/Frames.v", "C04/Concretize.v", "C04/Checks.v", "C04/PropsC04.v"]
 IMPORTS = "From Verif Require Import C04.AllocModel.\n"
 
 
@@ -132,6 +133,106 @@ def part_legacy_alloc(ctx, model_ok, n):
             return k, True
     ctx.corr["legacy_alloc_sequences"] = len(seqs)
     return len({tuple(o) for o in seqs}), False
+
+
+# ------------------------------------------------------------------ legacy call frames
+def gen_frame_contract(rnd, idx):
+    n = rnd.randint(2, 6)
+    arg_len = [rnd.randint(1, 4) for _ in range(n)]
+    lines = []
+    calls = {}
+    for i in range(n):
+        cs = [j for j in range(i) if rnd.random() < 0.45]
+        calls[i] = cs
+        lines.append(f"@internal\ndef f{i}(a: uint256[{arg_len[i]}]) -> uint256:")
+        for k in range(rnd.randint(0, 3)):
+            kind = rnd.random()
+            if kind < 0.6:
+                m = rnd.randint(1, 12)
+                lines.append(f"    x{k}: uint256[{m}] = empty(uint256[{m}])")
+            elif kind < 0.8:
+                m = rnd.choice([1, 31, 32, 33, 100])
+                lines.append(f"    x{k}: Bytes[{m}] = b\"\"")
+            else:
+                m = rnd.randint(1, 5)
+                lines.append(f"    x{k}: DynArray[uint256, {m}] = []")
+        lines.append("    r: uint256 = a[0]")
+        for j in cs:
+            lines.append(f"    r += self.f{j}(empty(uint256[{arg_len[j]}]))")
+        lines.append("    return r")
+    tops = [j for j in range(n) if rnd.random() < 0.5] or [n - 1]
+    lines.append("@external\ndef top(q: uint256) -> uint256:\n    t: uint256[2] = [q, q]\n    r: uint256 = t[0]")
+    for j in tops:
+        lines.append(f"    r += self.f{j}(empty(uint256[{arg_len[j]}]))")
+    lines.append("    return r")
+    return "\n".join(lines) + "\n"
+
+
+def part_frames(ctx, model_ok, n):
+    from pathlib import PurePath
+    from vyper.compiler.input_bundle import FileInput
+    from vyper.compiler.phases import CompilerData
+    from vyper.compiler.settings import OptimizationLevel, Settings
+    from vyper.utils import MemoryPositions
+    R = MemoryPositions.RESERVED_MEMORY
+    rnd = ctx.rng("frames")
+    exprs, meta = [], []
+    n_fn = 0
+    for idx in range(n):
+        src = gen_frame_contract(rnd, idx)
+        fi = FileInput(contents=src, source_id=0, path=PurePath("t.vy"), resolved_path=PurePath("t.vy"))
+        with warnings.catch_warnings():
+            warnings.simplefilter("ignore")
+            cd = CompilerData(fi, settings=Settings(optimize=rnd.choice([OptimizationLevel.NONE, OptimizationLevel.GAS, OptimizationLevel.CODESIZE]),
+                                                    experimental_codegen=False))
+            _ = cd.ir_nodes
+        mt = cd.annotated_vyper_module._metadata["type"]
+        fts = [fd._metadata["func_type"] for fd in mt.function_defs]
+        ids = {id(ft): k for k, ft in enumerate(fts)}
+        info = {}
+        for ft in fts:
+            fr = ft._ir_info.frame_info
+            mv = [(v.pos, v.size) for v in fr.frame_vars.values() if getattr(v.location, "name", "") == "memory" and isinstance(v.pos, int)]
+            info[id(ft)] = (fr.frame_start, fr.frame_size, mv, [ids[id(c)] for c in ft.reachable_internal_functions],
+                            [c for c in ft.called_functions])
+        detail = {"source": src, "how": "CompilerData(..., experimental_codegen=False).ir_nodes; func_t._ir_info.frame_info of every function",
+                  "frames": {ft.name: list(info[id(ft)][:4]) for ft in fts}}
+        # ---- the property's own oracle on the real table
+        for ft in fts:
+            st, sz, mv, reach, _ = info[id(ft)]
+            for k in reach:
+                gst, gsz, gmv, _, _ = info[id(fts[k])]
+                for (p, s_) in mv:
+                    for (q, t) in gmv:
+                        if max(p, q) < min(p + s_, q + t):
+                            ctx.violation("failing-input", f"memory variable of {ft.name} overlaps a variable of its (transitive) callee {fts[k].name}",
+                                          dict(detail, caller_var=[p, s_], callee_var=[q, t]))
+                            return n_fn, True
+                if R + gsz > st:
+                    ctx.violation("failing-input", f"frame of callee {fts[k].name} reaches into the variables of caller {ft.name}", detail)
+                    return n_fn, True
+
+        def tree(ft):
+            st, sz, _, _, called = info[id(ft)]
+            own = sz - (st - R)
+            return f"(Fn {coqrun.hexlit(own)} [{'; '.join(tree(c) for c in called)}])"
+        rows = "; ".join(f"mkRow {st} {sz} [{'; '.join(f'({p}, {q})' for p, q in mv)}] [{'; '.join(f'{k}%nat' for k in reach)}]"
+                         for (st, sz, mv, reach, _) in (info[id(ft)] for ft in fts))
+        for ft in fts:
+            exprs.append(f"frame_out {R} {tree(ft)}")
+            meta.append((detail, ft.name, [info[id(ft)][0], info[id(ft)][1]]))
+            n_fn += 1
+        exprs.append(f"[if frames_check {R} [{rows}] then 1 else 0]")
+        meta.append((detail, "<table>", [1]))
+    if model_ok and exprs:
+        outs = coqrun.eval_zlists("From Verif Require Import C04.Frames.\n", exprs, "c04frames", shard=max(8, len(exprs) // 4 + 1))
+        for (detail, name, want), got in zip(meta, outs):
+            if got != want:
+                ctx.violation("correspondence-broken", "frame model / verified frame checker disagrees with the real frame table" + f" ({name})",
+                              dict(detail, function=name, real=want, model=[str(x) for x in got]))
+                return n_fn, True
+    ctx.corr["frames"] = {"contracts": n, "functions": n_fn}
+    return n_fn, False
 
 
 # ------------------------------------------------------------------ canary contracts
@@ -416,7 +517,7 @@ def search_template(ctx):
 
 
 def run(ctx):
-    from vlib.c04_export import gen_checks
+    from vlib.c04_export import gen_checks, gen_legacy_alloc
     from vlib.configs import configs, core_configs
     quick = ctx.tier != "thorough"
     gen_err = None
@@ -425,6 +526,7 @@ def run(ctx):
             warnings.simplefilter("ignore")
             text, st = gen_checks()
         (COQ / "C04" / "GenChecks.v").write_text(text)
+        (COQ / "C04" / "GenLegacy.v").write_text(gen_legacy_alloc())
         ctx.extra["family_size"] = st["family_size"]
         ctx.extra["syntactic_matches"] = st["family_size"]
         ctx.corr["index_check_family"] = st
@@ -442,8 +544,12 @@ def run(ctx):
     n1, f1 = part_venom_alloc(ctx, model_ok, 300 if quick else 3000)
     n2, f2 = part_legacy_alloc(ctx, model_ok, 150 if quick else 1500)
     n3, f3 = part_canaries(ctx, core_configs() if quick else configs("quick"))
-    total = n1 + n2 + n3
-    found = f1 or f2 or f3
+    n4, f4 = part_frames(ctx, model_ok, 25 if quick else 250)
+    from vlib import c04_canary2, c04_venom
+    n5, f5 = c04_venom.run(ctx, model_ok, 18 if quick else 150)
+    n6, f6 = c04_canary2.run(ctx, core_configs() if quick else configs("quick"))
+    total = n1 + n2 + n3 + n4 + n5 + n6
+    found = f1 or f2 or f3 or f4 or f5 or f6
     if (gen_err is not None or not b["ok"]) and not found:
         if gen_err is not None:
             ctx.violation("translator-rejected", "cannot export the bounds-check templates: " + gen_err, {"error": gen_err})
